@@ -1306,3 +1306,212 @@ class TokenProvenance:
                         v = getattr(st, "iter", None) or getattr(st, "value", None)
                     out |= self.fields_read(fi, v, seen, depth)
         return out
+
+
+# ---------------------------------------------------------------------------
+# 5. the value an instance attribute has on a default-constructed instance of a class of constants
+
+
+class InstanceConstants:
+    """`<instance of clsqn>.<name>` for a class whose attributes are numeric parameters (TransportTuning):
+    evaluated the way Python's attribute lookup does on an instance that carries no attribute of its own --
+    the first class of the MRO that binds the name decides; a plain class-level binding is evaluated in the
+    class body's scope (earlier class-level names, then module-level constants bound once), a `@property` is
+    evaluated with `self.X` looked up on the *instance's* class again (so a subclass that overrides a parameter
+    a derived property depends on is seen).  Everything the evaluator cannot interpret -- another decorator,
+    a body that is more than local assignments and one return, a call other than max/min/abs/int/float/round,
+    a conditional binding, __getattr__/__getattribute__/__init__ machinery, stores through instances -- raises
+    AnalysisError: the rule refuses rather than guesses.  `consulted` collects every name looked up, so that the
+    caller can demand that nothing in the package stores to them through an instance."""
+
+    CALLS = {"max": max, "min": min, "abs": abs, "int": int, "float": float, "round": round}
+
+    def __init__(self, prog):
+        self.prog = prog
+        self.consulted = set()
+
+    def _fail(self, msg):
+        raise AnalysisError("constant evaluation: " + msg)
+
+    def _bindings(self, ci, name):
+        """top-level bindings of `name` in the class body, in order; refuses on conditional / odd bindings"""
+        out = []
+        for st in ci.node.body:
+            if isinstance(st, (ast.FunctionDef, ast.AsyncFunctionDef)):
+                if st.name == name:
+                    out.append(st)
+                continue
+            if isinstance(st, ast.ClassDef):
+                if st.name == name:
+                    self._fail("%s.%s is a class" % (ci.qn, name))
+                continue
+            if isinstance(st, ast.Assign) and len(st.targets) == 1 and isinstance(st.targets[0], ast.Name):
+                if st.targets[0].id == name:
+                    out.append(st)
+                continue
+            if isinstance(st, ast.AnnAssign) and isinstance(st.target, ast.Name):
+                if st.target.id == name and st.value is not None:
+                    out.append(st)
+                continue
+            for n in ast.walk(st):
+                if isinstance(n, ast.Name) and n.id == name and isinstance(n.ctx, (ast.Store, ast.Del)):
+                    self._fail("%s.%s is bound by `%s`" % (ci.qn, name, stmt_text(st)))
+                if isinstance(n, (ast.FunctionDef, ast.AsyncFunctionDef, ast.ClassDef)) and n.name == name:
+                    self._fail("%s.%s is bound conditionally" % (ci.qn, name))
+                if isinstance(n, ast.alias) and (n.asname or n.name.split(".")[0]) == name:
+                    self._fail("%s.%s is an import" % (ci.qn, name))
+        return out
+
+    def value(self, clsqn, name, stack=()):
+        key = (clsqn, name)
+        if key in stack:
+            self._fail("%s.%s depends on itself" % key)
+        self.consulted.add(name)
+        for q in self.prog.mro(clsqn):
+            ci = self.prog.classes.get(q)
+            if ci is None:
+                if q in ("object", "builtins.object"):
+                    continue
+                self._fail("%s has the base %s outside the package" % (clsqn, q))
+            for hook in ("__getattr__", "__getattribute__", "__init__", "__new__", "__init_subclass__", "__set_name__"):
+                if self._bindings(ci, hook):
+                    self._fail("%s defines %s" % (q, hook))
+            if ci.node.decorator_list or ci.node.keywords:
+                self._fail("%s has decorators / a metaclass" % q)
+            b = self._bindings(ci, name)
+            if not b:
+                continue
+            if len(b) > 1:
+                self._fail("%s.%s is bound more than once" % (q, name))
+            st = b[0]
+            if isinstance(st, (ast.Assign, ast.AnnAssign)):
+                return self._class_scope(ci, st.value, st, stack + (key,))
+            return self._property(clsqn, ci, st, stack + (key,))
+        self._fail("%s.%s is not defined" % (clsqn, name))
+
+    def _class_scope(self, ci, e, before, stack):
+        """an expression of the class body: names are earlier class-level bindings, else module constants"""
+        def name(n):
+            earlier = []
+            for st in ci.node.body:
+                if st is before:
+                    break
+                earlier.append(st)
+            hits = [st for st in earlier if (isinstance(st, ast.Assign) and len(st.targets) == 1 and isinstance(st.targets[0], ast.Name) and st.targets[0].id == n.id)
+                    or (isinstance(st, ast.AnnAssign) and isinstance(st.target, ast.Name) and st.target.id == n.id and st.value is not None)]
+            if self._bindings(ci, n.id):
+                if len(hits) != 1 or len(self._bindings(ci, n.id)) != 1:
+                    self._fail("%s: class-level name %s is not bound exactly once before its use" % (ci.qn, n.id))
+                return self._class_scope(ci, hits[0].value, hits[0], stack)
+            return self._module_const(ci.module, n.id)
+        return self._eval(e, name, None)
+
+    def _module_const(self, m, n):
+        vals, odd = [], False
+        for top in m.tree.body:
+            if isinstance(top, ast.Assign) and len(top.targets) == 1 and isinstance(top.targets[0], ast.Name):
+                if top.targets[0].id == n:
+                    vals.append(top.value)
+            elif isinstance(top, ast.AnnAssign) and isinstance(top.target, ast.Name):
+                if top.target.id == n and top.value is not None:
+                    vals.append(top.value)
+            elif isinstance(top, (ast.FunctionDef, ast.AsyncFunctionDef, ast.ClassDef)):
+                odd = odd or top.name == n
+            else:
+                for x in walk_no_nested(top):
+                    if isinstance(x, ast.Name) and x.id == n and isinstance(x.ctx, (ast.Store, ast.Del)):
+                        odd = True
+                    if isinstance(x, (ast.FunctionDef, ast.AsyncFunctionDef, ast.ClassDef)) and x.name == n:
+                        odd = True
+                    if isinstance(x, ast.alias) and (x.asname or x.name.split(".")[0]) == n:
+                        odd = True
+        for x in ast.walk(m.tree):
+            if isinstance(x, ast.Global) and n in x.names:
+                odd = True
+        if odd or len(vals) != 1:
+            self._fail("%s.%s is not a module-level constant bound exactly once" % (m.name, n))
+        return self._eval(vals[0], lambda x: self._module_const(m, x.id), None)
+
+    def _property(self, clsqn, ci, fn, stack):
+        decs = [chain(d) for d in fn.decorator_list]
+        if isinstance(fn, ast.AsyncFunctionDef) or len(decs) != 1 or \
+                self.prog.resolve_in_module(ci.module, decs[0] or "?") not in ("property", "builtins.property", "functools.cached_property"):
+            self._fail("%s.%s is a method, not a value or a plain property" % (ci.qn, fn.name))
+        a = fn.args
+        if len(a.args) != 1 or a.posonlyargs or a.kwonlyargs or a.vararg or a.kwarg:
+            self._fail("%s.%s: unexpected parameters" % (ci.qn, fn.name))
+        me = a.args[0].arg
+        body = list(fn.body)
+        if body and isinstance(body[0], ast.Expr) and isinstance(body[0].value, ast.Constant) and isinstance(body[0].value.value, str):
+            body = body[1:]
+        env = {}
+
+        def name(n):
+            if n.id in env:
+                return env[n.id]
+            if n.id == me:
+                self._fail("%s.%s uses the instance as a value" % (ci.qn, fn.name))
+            return self._module_const(ci.module, n.id)
+
+        def attr(n):
+            if isinstance(n.value, ast.Name) and n.value.id == me and me not in env:
+                return self.value(clsqn, n.attr, stack)
+            self._fail("%s.%s reads %s" % (ci.qn, fn.name, stmt_text(n)))
+
+        for st in body[:-1]:
+            if isinstance(st, ast.Assign) and len(st.targets) == 1 and isinstance(st.targets[0], ast.Name):
+                env[st.targets[0].id] = self._eval(st.value, name, attr)
+            else:
+                self._fail("%s.%s: `%s` is more than a local assignment" % (ci.qn, fn.name, stmt_text(st)))
+        if not body or not isinstance(body[-1], ast.Return) or body[-1].value is None:
+            self._fail("%s.%s does not end in `return <value>`" % (ci.qn, fn.name))
+        return self._eval(body[-1].value, name, attr)
+
+    def _eval(self, e, name, attr):
+        """numbers only; leaves resolved by the callbacks, arithmetic by norm.consteval"""
+        def sub(x):
+            if isinstance(x, ast.Constant):
+                if isinstance(x.value, (int, float)) and not isinstance(x.value, bool):
+                    return x
+                self._fail("%r is not a number" % (x.value,))
+            if isinstance(x, ast.Name):
+                return ast.Constant(name(x))
+            if isinstance(x, ast.Attribute):
+                if attr is None:
+                    self._fail("cannot read %s here" % stmt_text(x))
+                return ast.Constant(attr(x))
+            if isinstance(x, ast.Call):
+                f = x.func.id if isinstance(x.func, ast.Name) else None
+                if f not in self.CALLS or x.keywords or not x.args or any(isinstance(a_, ast.Starred) for a_ in x.args):
+                    self._fail("call %s" % stmt_text(x))
+                shadow = True
+                try:
+                    name(ast.Name(f, ast.Load()))
+                except AnalysisError:
+                    shadow = False
+                if shadow:
+                    self._fail("%s is not the builtin" % f)
+                try:
+                    return ast.Constant(self.CALLS[f](*[self._num(sub(a_)) for a_ in x.args]))
+                except (TypeError, ValueError, OverflowError) as ex:
+                    self._fail("%s: %s" % (stmt_text(x), ex))
+            if isinstance(x, ast.IfExp):
+                return sub(x.body) if self._num(sub(x.test), True) else sub(x.orelse)
+            if isinstance(x, ast.BinOp):
+                return ast.Constant(self._num(ast.BinOp(sub(x.left), x.op, sub(x.right))))
+            if isinstance(x, ast.UnaryOp) and isinstance(x.op, (ast.USub, ast.UAdd)):
+                return ast.Constant(self._num(ast.UnaryOp(x.op, sub(x.operand))))
+            if isinstance(x, ast.Compare) and len(x.ops) == 1:
+                return ast.Constant(self._num(ast.Compare(sub(x.left), x.ops, [sub(x.comparators[0])]), True))
+            self._fail("unsupported expression %s" % stmt_text(x))
+        return self._num(sub(e))
+
+    def _num(self, x, boolean=False):
+        from .. import norm as _norm
+        try:
+            v = x.value if isinstance(x, ast.Constant) else _norm.consteval(x)
+        except (_norm.NormError, TypeError, ValueError, ZeroDivisionError, OverflowError) as ex:
+            self._fail(str(ex))
+        if isinstance(v, bool) and not boolean or not isinstance(v, (int, float)):
+            self._fail("%r is not a number" % (v,))
+        return v
